@@ -71,11 +71,20 @@ class Watch:
     """Caller-owned inputs: bit-exact copies of arrays; for library objects a frozen view of
     all fields plus a pristine deep copy whose query values serve as reference."""
 
-    def __init__(self, inputs, probes=True):
+    def __init__(self, inputs, probes=True, live=False):
+        """live=False: the reference values of a shared object's queries come from a pristine
+        deep copy taken now (used around constructors: the shared object may be cold);
+        live=True: they are the values the shared object itself reports now (used around
+        queries: a query is blamed only for what changes while it runs)."""
         self.items = {}
         for k, v in inputs.items():
             if is_lib(v):
-                self.items[k] = (v, S.freeze(v), copy.deepcopy(v) if probes else None)
+                ref = None
+                if probes and live:
+                    ref = {q.label: S.freeze(S.call(v, q)) for q in probe_queries(v)}
+                elif probes:
+                    ref = copy.deepcopy(v)
+                self.items[k] = (v, S.freeze(v), ref)
             else:
                 self.items[k] = (v, copy.deepcopy(v), None)
 
@@ -86,13 +95,14 @@ class Watch:
                 for path, msg in S.changed_paths(frozen, S.view(v), ignore=IGNORE_FIELDS):
                     out.append((f"{k}{path}", msg))
                 if probes and pristine is not None:
-                    clean = copy.deepcopy(pristine)
+                    clean = None if isinstance(pristine, dict) else copy.deepcopy(pristine)
                     for q in probe_queries(v):
-                        a, b = S.call(v, q), S.call(clean, q)
+                        a = S.call(v, q)
+                        b = pristine[q.label] if clean is None else S.call(clean, q)
                         m = S.deep_diff(a, b)
                         if m:
                             out.append((f"{k}.{q.label}", f"shared object now reports {a.brief()}, "
-                                                          f"pristine copy {b.brief()}: {m}"))
+                                                          f"reference {b.brief()}: {m}"))
             else:
                 m = S.deep_diff(frozen, v, exact=True)
                 if m:
@@ -117,7 +127,7 @@ class Engine:
         run = spec.start()
         qs, self.skipped_methods = S.discover(run.obj, spec.ctx(run), exclude=spec.exclude)
         qs += list(spec.extra_queries)
-        self.qs, self.ref, self.dropped = [], {}, []
+        self.qs, self.ref, self.dropped, self.unstable = [], {}, [], set()
         for q in qs:
             a = S.call(self.start().obj, q)
             b = S.call(self.start().obj, q)
@@ -126,6 +136,10 @@ class Engine:
                 continue
             self.qs.append(q)
             self.ref[q.label] = S.freeze(a)
+            run = self.start()
+            S.call(run.obj, q)
+            if S.deep_diff(S.call(run.obj, q), self.ref[q.label]):
+                self.unstable.add(q.label)
 
     # ---- helpers
     def fail(self, check, witness, detail):
@@ -137,14 +151,19 @@ class Engine:
         return d
 
     def fresh(self, watch=False, probes=False):
+        """fresh object (+ watch of the caller-owned inputs).  watch='ctor': the watch is taken
+        right before the constructor runs (constructor purity); watch=True: right after
+        construction, so that a query is only blamed for what it changes itself"""
         holder = {}
-        if watch:
+        if watch == "ctor":
             self.spec.on_inputs = lambda inp: holder.setdefault("w", Watch(inp, probes))
         try:
             run = self.spec.start()
         finally:
             self.spec.on_inputs = None
         self.dress(run)
+        if watch is True:
+            holder["w"] = Watch(run.inputs, probes, live=True)
         return run, holder.get("w")
 
     def dress(self, run):
@@ -165,14 +184,14 @@ class Engine:
     def prepare(self):
         spec = self.spec
         #  constructor purity
-        run, w = self.fresh(watch=True, probes=True)
+        run, w = self.fresh(watch="ctor", probes=True)
         self.out["eval"] += 1
         for path, msg in w.diff(probes=True):
             self.fail(f"{self.cls}.__init__/inputs-unchanged", self.wit(input=path), f"{path}: {msg}")
         qs, skipped = S.discover(run.obj, spec.ctx(run), exclude=spec.exclude)
         qs += list(spec.extra_queries)
         self.skipped_methods = skipped
-        self.qs, self.ref, self.dropped = [], {}, []
+        self.qs, self.ref, self.dropped, self.unstable = [], {}, [], set()
         for q in qs:
             run, w = self.fresh(watch=True, probes=True)
             before = S.freeze(run.obj)
@@ -200,6 +219,7 @@ class Engine:
             a2 = S.call(run.obj, q)
             m = S.deep_diff(frozen, a2)
             if m:
+                self.unstable.add(q.label)
                 self.fail(f"{self.cls}.{name}/repeat-equal", self.wit(query=q.label),
                           f"{q.label}: first {S.Outcome(frozen.kind, frozen.value).brief()} | "
                           f"repeated {a2.brief()} | {m}")
@@ -238,7 +258,7 @@ class Engine:
                       f"{q2.label} (after {q1.label}) changed caller-owned {path}: {msg}")
         r1b = S.call(run.obj, q1)
         m = S.deep_diff(r1b, self.ref[q1.label])
-        if m:
+        if m and q1.label not in self.unstable:     # (self-instability is reported as repeat-equal)
             self.fail(f"{self.cls}.{n2}/no-interference", wit,
                       f"{q1.label} after {q2.label}: {r1b.brief()} | before: {self.ref[q1.label].brief()} | {m}")
         self.out["cases"].append((f"{self.spec.name}:pair:{q1.label}>{q2.label}",
@@ -248,6 +268,8 @@ class Engine:
         """name the earlier query that alone (cold pair) already changes the victim's value;
         if no single one does, the name says that only the sequence does"""
         seen = set()
+        if victim.label in self.unstable and any(p.label == victim.label for p in earlier):
+            return self.method_of(victim)
         for p in earlier:
             if p.label in seen:
                 continue
